@@ -189,13 +189,13 @@ def r02d(ctx):
                       f"{var} is not initialised to False before the output modes")
     ctx.floor("R02d", len(sets), 2, "output modes setting the status flag")
     # every output mode (edit list / digest / full diff) sets the flag
-    chain = next((i for i in walk_no_nested(fn) if isinstance(i, ast.If) and "args.only_edits" in ast.unparse(i.test)), None)
+    chain = next((i for i in walk_no_nested(fn) if isinstance(i, ast.If) and ".only_edits" in ast.unparse(i.test)), None)
     if chain is None:
         ctx.inconclusive("R02d", f.file, "main", fn, "output modes", "the only_edits / edit_digest / full-diff chain was not found")
     else:
         arms = [("--only-edits", chain.body)]
         rest = chain.orelse
-        if len(rest) == 1 and isinstance(rest[0], ast.If) and "args.edit_digest" in ast.unparse(rest[0].test):
+        if len(rest) == 1 and isinstance(rest[0], ast.If) and ".edit_digest" in ast.unparse(rest[0].test):
             arms.append(("--edit-digest", rest[0].body))
             arms.append(("full diff", rest[0].orelse))
         else:
@@ -224,7 +224,7 @@ def r02d(ctx):
 def _mode_key(a):
     for t, pol, _ in dominating_conditions(a):
         txt = ast.unparse(t)
-        if "args." in txt:
+        if ".only_edits" in txt or ".edit_digest" in txt:
             return ("" if pol else "not ") + txt
     return "?"
 
@@ -269,8 +269,11 @@ def r02f(ctx):
                      "Replace adds a positive constant")
     rq = m.need_class("Replace")
     init = m.method(rq, "__init__")
-    cost = next((s.value for s in walk_no_nested(init.node) if isinstance(s, ast.Assign) and isinstance(s.targets[0], ast.Name)
-                 and s.targets[0].id == "cost"), None)
+    # the value handed to ConstantCostEdit as `cost=` (followed through one local)
+    cost = next((k.value for c in walk_no_nested(init.node) if isinstance(c, ast.Call) for k in c.keywords if k.arg == "cost"), None)
+    if isinstance(cost, ast.Name):
+        cost = next((s.value for s in walk_no_nested(init.node) if isinstance(s, ast.Assign) and isinstance(s.targets[0], ast.Name)
+                     and s.targets[0].id == cost.id), None)
     if cost is not None and isinstance(cost, ast.BinOp) and isinstance(cost.op, ast.Add) and \
             isinstance(cost.right, ast.Constant) and cost.right.value >= 1:
         ctx.proved("R02f", init.file, "Replace.__init__", init.node, "Replace cost", f"cost = {norm(cost)} > 0")
